@@ -8,9 +8,9 @@ import re
 from datetime import datetime as dt, timedelta as td
 
 from .. import gen, regen, rt
-from ..common import Check, Diff, esc, exn_tag, frac_str
+from ..common import Check, Diff, Model, esc, exn_tag, frac_str
 
-MODELLED = ("0004", "0008", "0009", "000A", "1060", "10A0", "1260", "12B0", "1F09", "2309", "2349", "30C9", "2249", "22C9", "3150")
+MODELLED: tuple = ()  # the codes whose parser is in the Lean model: asked of the driver (decode.codes) at the start of a run
 ARRAY_CODES = {"0009": 3, "000A": 6, "2309": 3, "30C9": 3, "2249": 7, "22C9": 6, "3150": 2}
 STAMP = dt(2024, 1, 1, 12, 0, 0)
 
@@ -78,6 +78,9 @@ def run(chk: Check) -> None:
     from ramses_tx.message import Message, re_compile_re_match
     from ramses_tx.packet import Packet
 
+    global MODELLED
+    MODELLED = tuple(Model().run(["decode.codes"])[0].split(","))
+    chk.extra["modelled_codes"] = list(MODELLED)
     rnd = random.Random(chk.seed)
     thorough = chk.tier == "thorough"
     N = 200000 if thorough else 14000
@@ -167,6 +170,7 @@ def run(chk: Check) -> None:
             chk.violation(f"decode.escape:{out[4:]}:{code}", f"decoding {fr!r} raised {out[4:]}", {"frame": fr})
         if code in MODELLED:
             D.add("decode", [esc(fr)], out)
+            chk.count(f"modelled.{code}." + ("ok" if out.startswith("ok") else "err"))
         if not out.startswith("ok"):
             continue
         chk.nontrivial.add(fr)
